@@ -527,7 +527,7 @@ fn c19_ns_pair_3_4() {
     kani::cover!(!s.equal, "RDATA of different lengths are unequal");
 }
 
-// @harness props=C19 tier=thorough mem=8 t=3000 fn="Rdata::equals,helpers::names_equal,helpers::test_n_name_fields,Name::try_from_uncompressed,<Name as PartialEq>::eq,<Label as PartialEq>::eq"
+// @harness props=C19 tier=thorough mem=7 t=3600 fn="Rdata::equals,helpers::names_equal,helpers::test_n_name_fields,Name::try_from_uncompressed,<Name as PartialEq>::eq,<Label as PartialEq>::eq"
 //   bound="type NS, any class; RDATA lengths (1,3), all octet values, both orders; unwind 5"
 //   sym="a:[u8;1], b:[u8;3], class:u16" stubs="eq_ignore_ascii_case"
 #[kani::proof]
@@ -538,7 +538,7 @@ fn c19_ns_pair_1_3() {
     kani::cover!(!s.equal, "RDATA of different lengths are unequal");
 }
 
-// @harness props=C19 tier=thorough mem=8 t=3000 fn="Rdata::equals,helpers::names_equal,helpers::test_n_name_fields,Name::try_from_uncompressed,<Name as PartialEq>::eq,<Label as PartialEq>::eq"
+// @harness props=C19 tier=thorough mem=11 t=3600 fn="Rdata::equals,helpers::names_equal,helpers::test_n_name_fields,Name::try_from_uncompressed,<Name as PartialEq>::eq,<Label as PartialEq>::eq"
 //   bound="type NS, any class; RDATA lengths (1,4), all octet values, both orders; unwind 6"
 //   sym="a:[u8;1], b:[u8;4], class:u16" stubs="eq_ignore_ascii_case"
 #[kani::proof]
@@ -549,7 +549,7 @@ fn c19_ns_pair_1_4() {
     kani::cover!(!s.equal, "RDATA of different lengths are unequal");
 }
 
-// @harness props=C19 tier=thorough mem=10 t=3600 fn="Rdata::equals,helpers::names_equal,helpers::test_n_name_fields,Name::try_from_uncompressed,<Name as PartialEq>::eq,<Label as PartialEq>::eq"
+// @harness props=C19 tier=thorough mem=11 t=3600 fn="Rdata::equals,helpers::names_equal,helpers::test_n_name_fields,Name::try_from_uncompressed,<Name as PartialEq>::eq,<Label as PartialEq>::eq"
 //   bound="type NS, any class; RDATA lengths (1,5), all octet values, both orders; unwind 7"
 //   sym="a:[u8;1], b:[u8;5], class:u16" stubs="eq_ignore_ascii_case"
 #[kani::proof]
@@ -608,7 +608,7 @@ fn c19_ns_pair_5_5() {
 
 // ---- the other single-name types: (3,3) and (3,4) = name vs name+junk ------
 
-// @harness props=C19 tier=thorough mem=8 t=3000 fn="Rdata::equals,helpers::names_equal,helpers::test_n_name_fields,Name::try_from_uncompressed,<Name as PartialEq>::eq,<Label as PartialEq>::eq"
+// @harness props=C19 tier=thorough mem=7 t=3600 fn="Rdata::equals,helpers::names_equal,helpers::test_n_name_fields,Name::try_from_uncompressed,<Name as PartialEq>::eq,<Label as PartialEq>::eq"
 //   bound="type MD (3), any class; RDATA lengths (3,3) and (3,4) in the order (a,b), all octet values; unwind 6"
 //   sym="a:[u8;3], b:[u8;3]; a2:[u8;3], b2:[u8;4]; class:u16" stubs="eq_ignore_ascii_case"
 #[kani::proof]
@@ -622,7 +622,7 @@ fn c19_md_pairs() {
     kani::cover!(!s.equal, "RDATA of different lengths are unequal");
 }
 
-// @harness props=C19 tier=thorough mem=8 t=3000 fn="Rdata::equals,helpers::names_equal,helpers::test_n_name_fields,Name::try_from_uncompressed,<Name as PartialEq>::eq,<Label as PartialEq>::eq"
+// @harness props=C19 tier=thorough mem=7 t=3600 fn="Rdata::equals,helpers::names_equal,helpers::test_n_name_fields,Name::try_from_uncompressed,<Name as PartialEq>::eq,<Label as PartialEq>::eq"
 //   bound="type MF (4), any class; RDATA lengths (3,3) and (3,4) in the order (a,b), all octet values; unwind 6"
 //   sym="a:[u8;3], b:[u8;3]; a2:[u8;3], b2:[u8;4]; class:u16" stubs="eq_ignore_ascii_case"
 #[kani::proof]
@@ -636,7 +636,7 @@ fn c19_mf_pairs() {
     kani::cover!(!s.equal, "RDATA of different lengths are unequal");
 }
 
-// @harness props=C19 tier=thorough mem=8 t=3000 fn="Rdata::equals,helpers::names_equal,helpers::test_n_name_fields,Name::try_from_uncompressed,<Name as PartialEq>::eq,<Label as PartialEq>::eq"
+// @harness props=C19 tier=thorough mem=7 t=3600 fn="Rdata::equals,helpers::names_equal,helpers::test_n_name_fields,Name::try_from_uncompressed,<Name as PartialEq>::eq,<Label as PartialEq>::eq"
 //   bound="type CNAME (5), any class; RDATA lengths (3,3) and (3,4) in the order (a,b), all octet values; unwind 6"
 //   sym="a:[u8;3], b:[u8;3]; a2:[u8;3], b2:[u8;4]; class:u16" stubs="eq_ignore_ascii_case"
 #[kani::proof]
@@ -650,7 +650,7 @@ fn c19_cname_pairs() {
     kani::cover!(!s.equal, "RDATA of different lengths are unequal");
 }
 
-// @harness props=C19 tier=thorough mem=8 t=3000 fn="Rdata::equals,helpers::names_equal,helpers::test_n_name_fields,Name::try_from_uncompressed,<Name as PartialEq>::eq,<Label as PartialEq>::eq"
+// @harness props=C19 tier=thorough mem=7 t=3600 fn="Rdata::equals,helpers::names_equal,helpers::test_n_name_fields,Name::try_from_uncompressed,<Name as PartialEq>::eq,<Label as PartialEq>::eq"
 //   bound="type MB (7), any class; RDATA lengths (3,3) and (3,4) in the order (a,b), all octet values; unwind 6"
 //   sym="a:[u8;3], b:[u8;3]; a2:[u8;3], b2:[u8;4]; class:u16" stubs="eq_ignore_ascii_case"
 #[kani::proof]
@@ -664,7 +664,7 @@ fn c19_mb_pairs() {
     kani::cover!(!s.equal, "RDATA of different lengths are unequal");
 }
 
-// @harness props=C19 tier=thorough mem=8 t=3000 fn="Rdata::equals,helpers::names_equal,helpers::test_n_name_fields,Name::try_from_uncompressed,<Name as PartialEq>::eq,<Label as PartialEq>::eq"
+// @harness props=C19 tier=thorough mem=7 t=3600 fn="Rdata::equals,helpers::names_equal,helpers::test_n_name_fields,Name::try_from_uncompressed,<Name as PartialEq>::eq,<Label as PartialEq>::eq"
 //   bound="type MG (8), any class; RDATA lengths (3,3) and (3,4) in the order (a,b), all octet values; unwind 6"
 //   sym="a:[u8;3], b:[u8;3]; a2:[u8;3], b2:[u8;4]; class:u16" stubs="eq_ignore_ascii_case"
 #[kani::proof]
@@ -678,7 +678,7 @@ fn c19_mg_pairs() {
     kani::cover!(!s.equal, "RDATA of different lengths are unequal");
 }
 
-// @harness props=C19 tier=thorough mem=8 t=3000 fn="Rdata::equals,helpers::names_equal,helpers::test_n_name_fields,Name::try_from_uncompressed,<Name as PartialEq>::eq,<Label as PartialEq>::eq"
+// @harness props=C19 tier=thorough mem=7 t=3600 fn="Rdata::equals,helpers::names_equal,helpers::test_n_name_fields,Name::try_from_uncompressed,<Name as PartialEq>::eq,<Label as PartialEq>::eq"
 //   bound="type MR (9), any class; RDATA lengths (3,3) and (3,4) in the order (a,b), all octet values; unwind 6"
 //   sym="a:[u8;3], b:[u8;3]; a2:[u8;3], b2:[u8;4]; class:u16" stubs="eq_ignore_ascii_case"
 #[kani::proof]
@@ -692,7 +692,7 @@ fn c19_mr_pairs() {
     kani::cover!(!s.equal, "RDATA of different lengths are unequal");
 }
 
-// @harness props=C19 tier=thorough mem=8 t=3000 fn="Rdata::equals,helpers::names_equal,helpers::test_n_name_fields,Name::try_from_uncompressed,<Name as PartialEq>::eq,<Label as PartialEq>::eq"
+// @harness props=C19 tier=thorough mem=7 t=3600 fn="Rdata::equals,helpers::names_equal,helpers::test_n_name_fields,Name::try_from_uncompressed,<Name as PartialEq>::eq,<Label as PartialEq>::eq"
 //   bound="type PTR (12), any class; RDATA lengths (3,3) and (3,4) in the order (a,b), all octet values; unwind 6"
 //   sym="a:[u8;3], b:[u8;3]; a2:[u8;3], b2:[u8;4]; class:u16" stubs="eq_ignore_ascii_case"
 #[kani::proof]
@@ -966,7 +966,7 @@ fn c19_ns_triple_3_3_3() {
     kani::cover!(w, "a chain a ~ b ~ c through octet-different names");
 }
 
-// @harness props=C19 tier=thorough mem=8 t=3000 fn="Rdata::equals,helpers::names_equal,helpers::test_n_name_fields,Name::try_from_uncompressed,<Name as PartialEq>::eq,<Label as PartialEq>::eq"
+// @harness props=C19 tier=thorough mem=7 t=3600 fn="Rdata::equals,helpers::names_equal,helpers::test_n_name_fields,Name::try_from_uncompressed,<Name as PartialEq>::eq,<Label as PartialEq>::eq"
 //   bound="type NS, any class; three RDATA of lengths (3,4,3), all octet values; unwind 6"
 //   sym="a,c:[u8;3], b:[u8;4], class:u16" stubs="eq_ignore_ascii_case"
 #[kani::proof]
@@ -1037,7 +1037,7 @@ fn c19_set_ns_from_iter_3_3() {
     kani::cover!(k2, "second is new");
 }
 
-// @harness props=C19 tier=thorough mem=8 t=2400 fn="RdataSetOwned::from_iter,RdataSetOwned::insert,<RdataSetOwned as From<&Rdata>>::from,RdataSet::iter,<rdata_set::Iter as Iterator>::next,Rdata::equals,Rdata::equals,helpers::names_equal,helpers::test_n_name_fields,Name::try_from_uncompressed,<Name as PartialEq>::eq,<Label as PartialEq>::eq"
+// @harness props=C19 tier=thorough mem=7 t=2400 fn="RdataSetOwned::from_iter,RdataSetOwned::insert,<RdataSetOwned as From<&Rdata>>::from,RdataSet::iter,<rdata_set::Iter as Iterator>::next,Rdata::equals,Rdata::equals,helpers::names_equal,helpers::test_n_name_fields,Name::try_from_uncompressed,<Name as PartialEq>::eq,<Label as PartialEq>::eq"
 //   bound="class IN type NS; two RDATA of lengths (4,3) (name+junk, then the name), all octet values; from_iter; unwind 7"
 //   sym="r1:[u8;4], r2:[u8;3]" stubs="eq_ignore_ascii_case"
 #[kani::proof]
